@@ -75,6 +75,14 @@ def cases():
     add("ufunc:valid-2in", "base", lambda e: e.apply("(Q:center),(Q:left)->(Q:left)", [e.c, e.l], [("X",), ("X",)], None), True)
     add("ufunc:input-on-wrong-position", "grid-ufunc inputs on the wrong positions", lambda e: e.apply("(Q:center)->(Q:left)", [e.l], [("X",)], {"Q": (1, 0)}))
     add("ufunc:second-input-on-wrong-position", "grid-ufunc inputs on the wrong positions", lambda e: e.apply("(Q:center),(Q:left)->(Q:left)", [e.c, e.c], [("X",), ("X",)], None))
+    # arguments with TWO signature axes, one of them on the position the signature names and the other one not
+    add("ufunc:valid-2axes", "base", lambda e: e.apply2("(P:center,Q:center)->(P:left,Q:center)", [e.c], [("X", "Y")], {"P": (1, 0)}), True)
+    add("ufunc:2axes-first-axis-on-wrong-position", "grid-ufunc inputs on the wrong positions",
+        lambda e: e.apply2("(P:center,Q:center)->(P:left,Q:center)", [e.l], [("X", "Y")], {"P": (1, 0)}))
+    add("ufunc:2axes-second-axis-on-wrong-position", "grid-ufunc inputs on the wrong positions",
+        lambda e: e.apply2("(Q:center,P:center)->(Q:center,P:left)", [e.l], [("Y", "X")], {"P": (1, 0)}))
+    add("ufunc:2axes-second-input-partly-on-wrong-position", "grid-ufunc inputs on the wrong positions",
+        lambda e: e.apply2("(P:center,Q:center),(P:center,Q:center)->(P:left,Q:center)", [e.c, e.l], [("X", "Y"), ("X", "Y")], {"P": (1, 0)}))
     add("ufunc:position-absent-on-axis", "grid-ufunc inputs on the wrong positions", lambda e: e.apply("(Q:center)->(Q:inner)", [e.cy], [("Y",)], None))
     add("ufunc:too-many-inputs", "grid-ufunc inputs in the wrong number", lambda e: e.apply("(Q:center)->(Q:left)", [e.c, e.c], [("X",), ("X",)], None))
     add("ufunc:too-few-inputs", "grid-ufunc inputs in the wrong number", lambda e: e.apply("(Q:center),(Q:left)->(Q:left)", [e.c], [("X",)], None))
@@ -127,6 +135,10 @@ class Env:
 
     def apply(self, sig, args, axis, bw):
         f = self.w.userfunc("F", lambda arrs: [list(arrs[0].shape[:-1]) + [self.dims["x_l"]]])
+        return self.g.apply_as_grid_ufunc(f, *args, axis=axis, signature=sig, boundary_width=bw, boundary="extend")
+
+    def apply2(self, sig, args, axis, bw):
+        f = self.w.userfunc("F2", lambda arrs: [list(arrs[0].shape[:-2]) + [self.dims["x_l"], self.dims["y_c"]]])
         return self.g.apply_as_grid_ufunc(f, *args, axis=axis, signature=sig, boundary_width=bw, boundary="extend")
 
     def transform(self, method, axis="Z", td="center", periodic=False, bins="mono"):
